@@ -342,3 +342,19 @@ Proof.
 Qed.
 
 End Fn.
+
+(* non-vacuity: a service with an extends clause, a oneway function whose result type is named "throws", a function with a
+   throws clause followed directly by a function whose result type begins with the word throws *)
+Example rt_service_example :
+  let ty s := CType (CTPath (mkCPath s [])) None in
+  let fld1 := mkCField (txt "1") [] [BWs (txt " ")] None (ty (txt "optionalFoo")) [BWs (txt " ")] (txt "a") [] None None SepNone in
+  let f1 := mkCFunction (Some [BWs (txt " ")]) (ty (txt "throws")) [BWs (txt " ")] (txt "f") [] [] [] [] None None (SepSome false []) in
+  let f2 := mkCFunction None (CType (CTBase BVoid) None) [BWs (txt " ")] (txt "g") [] [BBlock (txt "x")] [fld1] []
+                        (Some (mkCThrows [] [] [fld1] [])) None SepNone in
+  let f3 := mkCFunction None (ty (txt "throwsX")) [BLine []; BWs [x0a]] (txt "h") [] [] [] [] None (Some [mkCAnn [] (txt "k") [] [] (mkLit false []) [] SepNone]) SepNone in
+  let c := mkCService [BWs (txt " ")] (txt "services") (Some ([BWs (txt " ")], [BWs (txt " ")], mkCPath (txt "a") [([], [], txt "b")])) []
+                      [([BWs (txt " ")], f1); ([], f2); ([], f3)] [BHash (txt "e"); BWs [x0a]] (mkTail [] None SepNone) in
+  wf_service true c = true /\ p_service 300 300 (pr_service c []) = POk [] (erase_service c) /\
+  pr_service c [] = txt "service services extends a.b{ oneway throws f(),void g(/*x*/1: optionalFoo a)throws(1: optionalFoo a)throwsX//"
+                    ++ x0a :: txt "h()(k='')#e" ++ x0a :: txt "}".
+Proof. vm_compute. repeat split. Qed.
